@@ -67,6 +67,45 @@ def check_c13(mon, settings, out, tag):
             wit = {'vector': dict(zip(cont, k)), 'pids': pids[:6], 'distinct_vectors': len(vec_pid), 'iterations': started}
         mon.check('sample-vectors-distinct', not dup, mechanism='C13/replicated-draws-across-workers' if dup and len(set(next(iter(dup.values())))) > 1
                   else 'C13/replicated-draws', witness_=wit, **tag)
+    # ---- per input: no value of a continuous input is drawn twice, and no two workers draw the same sequence
+    per_pid = collections.defaultdict(lambda: collections.defaultdict(list))      # input -> pid -> [(t, value)]
+    for p, e in begins.items():
+        for ln in e['tail']:
+            if ', ' in ln:
+                nm, v = ln.split(', ', 1)
+                per_pid[nm][e['pid']].append((e['t'], v))
+    for nm, bypid in per_pid.items():
+        d = dists.get(nm)
+        if d is None:
+            continue
+        seqs = {pid: [v for _, v in sorted(xs)] for pid, xs in bypid.items()}
+        if d[0] != 'binomial':
+            allv = [v for sq in seqs.values() for v in sq]
+            cnt = collections.Counter(allv)
+            rep = [(v, n) for v, n in cnt.items() if n > 1]
+            if len(allv) > 1:
+                wit = None
+                if rep:
+                    v, n = rep[0]
+                    wit = {'value': v, 'times': n, 'pids': [pid for pid, sq in seqs.items() if v in sq][:6], 'distinct': len(cnt), 'draws': len(allv)}
+                mon.check('continuous-input-values-distinct', not rep, mechanism='C13/replicated-draws-of-one-input-across-workers:' + d[0]
+                          if rep and len(wit['pids']) > 1 else 'C13/replicated-draws-of-one-input:' + d[0], name=nm, witness_=wit, **tag)
+        else:
+            # discrete input: two workers with identical sequences of >= 12 draws (chance < 1e-7 per pair for the settings used)
+            pids = [pid for pid, sq in seqs.items() if len(sq) >= 12]
+            same = None
+            for i in range(len(pids)):
+                for j in range(i + 1, len(pids)):
+                    a, b = seqs[pids[i]], seqs[pids[j]]
+                    m = min(len(a), len(b))
+                    if a[:m] == b[:m]:
+                        same = {'pids': [pids[i], pids[j]], 'common_prefix': a[:m][:16], 'length': m}
+                        break
+                if same:
+                    break
+            if len(pids) >= 2:
+                mon.check('worker-sequences-differ', same is None, mechanism='C13/replicated-draws-of-one-input-across-workers:binomial',
+                          name=nm, witness_=same, **tag)
     # ---- support + marginals
     samples = collections.defaultdict(list)
     for p, e in begins.items():
@@ -118,14 +157,23 @@ def check_c13(mon, settings, out, tag):
 def schedules(ctx):
     rng = ctx.rng
     plans = []
+    G, H = 'GEOPHIRES', 'HIP-RA-X'
     if ctx.quick:
-        combos = [(1, 1), (3, 2), (16, 4), (17, 16), (40, 16), (40, 32), (40, 1), (120, 16), (300, 16), (40, 2), (16, 32)]
+        combos = [(1, 1, G), (3, 2, H), (16, 4, G), (17, 16, G), (40, 16, H), (40, 32, G), (40, 1, G), (120, 16, H), (300, 16, G),
+                  (40, 2, H), (16, 32, G), (300, 8, H)]
     else:
-        combos = [(i, w) for i in (1, 3, 16, 17, 40) for w in (1, 2, 4, 16, 32)] + [(300, 16), (300, 32), (300, 4), (1000, 16),
-                                                                                    (1000, 32), (120, 16), (120, 2)] * 2
-    for idx, (iters, w) in enumerate(combos):
-        program = 'HIP-RA-X' if idx % 3 == 2 else 'GEOPHIRES'
-        failure = 0.0 if idx % 4 else rng.choice([0.3, 0.9] if iters >= 16 else [0.0])
+        combos = [(i, w, G if (i + w) % 3 else H) for i in (1, 3, 16, 17, 40) for w in (1, 2, 4, 16, 32)] + \
+                 [(300, 16, G), (300, 32, H), (300, 4, G), (1000, 16, G), (1000, 32, H), (120, 16, G), (120, 2, H),
+                  (300, 16, H), (300, 32, G), (300, 8, G), (1000, 16, H), (1000, 32, G), (120, 16, H), (600, 4, G)]
+    for idx, (iters, w, program) in enumerate(combos):
+        # failing subsets: deterministic places in the schedule so that both failure rates are always observed
+        failure = 0.0
+        if iters == 40 and w in (16, 2):
+            failure = 0.3
+        elif iters == 120 or (iters == 40 and w == 32):
+            failure = 0.9 if program == H or iters == 40 else 0.3
+        elif not ctx.quick and iters in (300, 1000) and w == 32:
+            failure = 0.3
         kinds = None
         if iters >= 100:
             kinds = ['uniform', 'normal', 'triangular', 'lognormal', 'binomial'] if program == 'GEOPHIRES' else \
@@ -163,6 +211,7 @@ def run(ctx):
                          'worker_counts': sorted({w for _, w, _ in plans}),
                          'iteration_counts': sorted({st['iterations'] for st, _, _ in plans})})
     ctx.required.update({'rows-exactly-once': 8, 'sample-vectors-distinct': 8, 'samples-in-support': 20,
+                         'continuous-input-values-distinct': 20, 'worker-sequences-differ': 1,
                          'marginal-distribution': 6, 'every-iteration-started': 8})
     ctx.rule = ('Monte-Carlo runs of the real client over settings files mixing uniform / normal / triangular / lognormal / '
                 'binomial inputs (GEOPHIRES fast base and HIP-RA-X), iteration counts {1,3,16,17,40,120,300(,1000)}, the pool '
